@@ -66,3 +66,38 @@ theorem c34_half_open_connect (g : Gw) (t : Tx) (st : ConnSt) (f : ConnFields) (
   (c10_expire g t st f hk hd ha).1
 
 end Bisquitt.Gw
+
+namespace Bisquitt.Gw
+open Bisquitt Gw
+
+theorem snSend_pingers (g : Gw) (p : Pkt) (tx : Option Nat) : (g.snSend p tx).pingers = g.pingers := by
+  unfold snSend; split <;> rfl
+
+theorem foldl_snSend_pingers (its : List BufItem) : ∀ g : Gw,
+    (its.foldl (fun g (it : BufItem) => g.snSend it.pkt it.tx) g).pingers = g.pingers := by
+  induction its with
+  | nil => intro g; rfl
+  | cons x xs ih => intro g; simp only [List.foldl_cons]; rw [ih, snSend_pingers]
+
+/-- **C34.** A new sleep period replaces the pinger of the previous one: at most one pinger runs,
+    the one started for the period announced now (if it is longer than the keep-alive). -/
+theorem c34_pinger_replaced (g : Gw) (d : UInt16) :
+    (g.handleSleep d).pingers =
+      if g.keepAlive ≠ 0 ∧ d > g.keepAlive then
+        [{ next := g.now + g.keepAlive.toNat * 1000, cancelAt := g.now + d.toNat * 1000, period := g.keepAlive.toNat * 1000 }]
+      else [] := by
+  unfold handleSleep clearBufferUnlessAsleep maybeSleepPinger
+  split <;> (split <;> simp_all [snSendNow, emit, setSt, startSleepPinger, cancelSleepPinger, clearBuffer])
+
+/-- **C34.** A sleeping client that re-CONNECTs has no pinger any more: from then on only its own
+    traffic keeps the broker connection alive, so a client vanishing afterwards is dropped by the broker. -/
+theorem c34_pinger_cancelled_on_reconnect (g : Gw) (will clean : Bool) (dur : UInt16) (cid : Bytes)
+    (h : g.st = .awake ∨ g.st = .asleep) : (g.handleConnect will clean dur cid).pingers = [] := by
+  unfold handleConnect
+  simp only [h, if_true]
+  unfold flushBuffer
+  simp only
+  rw [foldl_snSend_pingers]
+  simp [snSend_pingers, cancelSleepPinger]
+
+end Bisquitt.Gw
